@@ -85,6 +85,14 @@ Proof. exact finite_rank_satisfies_facts. Qed.
 Theorem C16_unsatisfiable_facts_refused : forall n D facts, facts <> [] -> facts_sat n facts = false -> zocf_partition n None facts D = None.
 Proof. exact zocf_unsat_facts_refused. Qed.
 Print Assumptions C16_worlds_below_top_satisfy_facts. Print Assumptions C16_unsatisfiable_facts_refused.
+(* with facts: for a query whose antecedent has a feasible model, acceptance by the object = the extended System Z
+   operator's answer on the augmented base *)
+Theorem C16_facts_acceptance_is_system_z_on_augmented_base : forall n D facts fin Cinf0 q,
+  facts <> [] -> zocf_partition n None facts D = Some (fin ++ [Cinf0]) ->
+  existsb (ante q) (Wf (worlds n) (fin ++ [Cinf0])) = true ->
+  infer n SysZ true (augment D facts) q = Ans (obj_accept n fin Cinf0 q).
+Proof. exact zocf_facts_acceptance_is_operator. Qed.
+Print Assumptions C16_facts_acceptance_is_system_z_on_augmented_base.
 Example birds_facts_refused : zocf_partition 4 None [v 1; FNot (v 1)] birds = None. Proof. vm_compute. reflexivity. Qed.
 Example birds_fact_top : (match zocf_partition 4 None [FNot (v 1)] birds with
    Some P => (length P, map (zrank_of P) (filter (fun w => eval w (v 1)) (worlds 4))) | None => (0, []) end) = (2, [2;2;2;2;2;2;2;2]).
